@@ -432,6 +432,8 @@ Judge(e, c) ==
       [] e.ev = "hook"     -> [v |-> JudgeHook(e), c |-> c]
       [] e.ev = "info"     -> [v |-> JudgeInfo(e), c |-> c]
       [] e.ev = "load"     -> [v |-> JudgeLoad(e), c |-> c]
+      (* SigningKey::as_mut_slice: same-length bytes written by the caller are what the object holds afterwards *)
+      [] e.ev = "poke"     -> [v |-> NoPanic(e) \o (IF e.res = "ok" THEN CmpBytes("poke_value", B(e.key), e.mem_after) ELSE <<>>), c |-> c]
       [] e.ev \in {"reset", "persist", "skip"} -> [v |-> <<>>, c |-> c]
       [] e.ev = "hang"     -> [v |-> <<Verdict("hang", "termination", "hang")>>, c |-> c]
       [] OTHER             -> [v |-> <<Verdict("unknown_event", "", e.ev)>>, c |-> c]
